@@ -84,20 +84,21 @@ type vfStep struct {
 }
 
 type vfSession struct {
-	e      *vfEnv
-	r      *vfResult
-	rng    *rand.Rand
-	sw     *vfSwitch
-	A, B   *vfSide
-	P      *vfPeer
-	dataSt map[*vfSide]*vfDataState
-	steps  []vfStep
-	stepN  int
-	idx    int
-	desc   map[string]any
-	start  time.Time
-	broken string // set when the harness itself lost quiescence: the run becomes inconclusive
-	mon    struct{ c03, c04, c06, c07 bool }
+	beforeStart func() // optional: runs in setupPair after gathering, before the agents are started
+	e           *vfEnv
+	r           *vfResult
+	rng         *rand.Rand
+	sw          *vfSwitch
+	A, B        *vfSide
+	P           *vfPeer
+	dataSt      map[*vfSide]*vfDataState
+	steps       []vfStep
+	stepN       int
+	idx         int
+	desc        map[string]any
+	start       time.Time
+	broken      string // set when the harness itself lost quiescence: the run becomes inconclusive
+	mon         struct{ c03, c04, c06, c07 bool }
 	// expectations maintained by workloads
 	noPairPossible bool
 }
@@ -399,30 +400,31 @@ func (x *vfSide) close() {
 // ---------------------------------------------------------------- snapshots
 
 type vfPairSnap struct {
-	ID        uint64
-	Local     string
-	Remote    string
-	LType     CandidateType
-	RType     CandidateType
-	State     CandidatePairState
-	Nominated bool
-	NomOnSucc bool
-	Prio      uint64
-	LPrio     uint32
-	RPrio     uint32
-	ReqCount  uint16
-	ReqSent   uint64
-	ReqRecv   uint64
-	RespSent  uint64
-	RespRecv  uint64
-	PktSent   uint32
-	PktRecv   uint32
-	BytesSent uint64
-	BytesRecv uint64
-	LocalNT   NetworkType
-	RemoteNT  NetworkType
-	InByID    bool
-	IsSel     bool
+	ID           uint64
+	Local        string
+	Remote       string
+	LType        CandidateType
+	RType        CandidateType
+	State        CandidatePairState
+	Nominated    bool
+	NomOnSucc    bool
+	Prio         uint64
+	LPrio        uint32
+	RPrio        uint32
+	ReqCount     uint16
+	ReqSent      uint64
+	ReqRecv      uint64
+	RespSent     uint64
+	RespRecv     uint64
+	PktSent      uint32
+	PktRecv      uint32
+	BytesSent    uint64
+	BytesRecv    uint64
+	LocalNT      NetworkType
+	RemoteNT     NetworkType
+	InByID       bool
+	IsSel        bool
+	PrioOverride bool // the pair keeps the priority it had before a signalled candidate superseded its peer-reflexive remote (C06)
 }
 
 type vfCandSnap struct {
@@ -476,7 +478,7 @@ func (x *vfSide) snapshot() *vfSnap {
 				LPrio: p.Local.Priority(), RPrio: p.Remote.Priority(), ReqCount: p.bindingRequestCount,
 				ReqSent: p.RequestsSent(), ReqRecv: p.RequestsReceived(), RespSent: p.ResponsesSent(), RespRecv: p.ResponsesReceived(),
 				PktSent: p.PacketsSent(), PktRecv: p.PacketsReceived(), BytesSent: p.BytesSent(), BytesRecv: p.BytesReceived(),
-				LocalNT: p.Local.NetworkType(), RemoteNT: p.Remote.NetworkType(), InByID: a.pairsByID[p.id] == p, IsSel: p == sel,
+				LocalNT: p.Local.NetworkType(), RemoteNT: p.Remote.NetworkType(), InByID: a.pairsByID[p.id] == p, IsSel: p == sel, PrioOverride: p.hasPriorityOverride,
 			}
 			sn.Pairs = append(sn.Pairs, ps)
 		}
@@ -612,6 +614,9 @@ func (s *vfSession) afterStep() {
 		if s.mon.c03 {
 			s.monitorC03(x, sn)
 		}
+		if s.e.prop == "C17" {
+			s.monitorC17(x, sn)
+		}
 		x.prevSnapState = sn.State
 		_ = sn
 		if s.noPairPossible && (sn.Selected != "" || sn.State == ConnectionStateConnected) {
@@ -620,6 +625,23 @@ func (s *vfSession) afterStep() {
 	}
 	if s.mon.c07 {
 		s.afterStepC07()
+	}
+}
+
+// ---------------------------------------------------------------- C17: live pair priorities follow the formula for the agent's CURRENT role
+
+func (s *vfSession) monitorC17(x *vfSide, sn *vfSnap) {
+	for _, p := range sn.Pairs {
+		if p.PrioOverride {
+			continue
+		}
+		s.r.eval(1)
+		if want := vfRefPairPrio(sn.Controlling, p.LPrio, p.RPrio); p.Prio != want {
+			s.viol("C17", "live-pair-priority-not-for-current-role", fmt.Sprintf("%s (controlling now: %v) lists pair %s -> %s (candidate priorities %d / %d) with pair priority %d; the formula with the controlling side's candidate as G gives %d", x.name, sn.Controlling, p.Local, p.Remote, p.LPrio, p.RPrio, p.Prio, want),
+				map[string]any{"side": x.name, "controlling": sn.Controlling, "pair": p.Local + "|" + p.Remote, "local_priority": p.LPrio, "remote_priority": p.RPrio, "pair_priority": fmt.Sprint(p.Prio), "reference": fmt.Sprint(want)})
+
+			return
+		}
 	}
 }
 
